@@ -15,9 +15,11 @@ RULE = ("schemas rich in input types (nested, recursive through nullable / list 
         "input type expressions x valid assignments (all-none, all-some, random; nullable members given as null or left out; "
         "list lengths 0-3; every @oneOf member) x skip_serializing_none {off,on} x normalization {none,rust} x schema format "
         "{SDL, JSON}. Each serialised `variables` object is judged against the SCHEMA by an independent validator, not only "
-        "against the assignment. Non-trivial = case with an input-object or list variable; distinct by (schema, document, options)")
+        "against the assignment. The value space of the generated types is also probed from outside: single-point invalid "
+        "assignments (null / absent at non-null positions, @oneOf objects with zero or two members or a null member) are fed to "
+        "Deserialize for Variables - whatever is accepted is a `Variables` value and must still serialise validly. Non-trivial = case with an input-object or list variable; distinct by (schema, document, options)")
 
-FLOOR = {"assignments": 800, "var:input-object": 30, "var:list": 30, "one-of-value": 20, "skip-on": 20, "norm-rust": 20}
+FLOOR = {"assignments": 800, "var:input-object": 30, "var:list": 30, "one-of-value": 20, "skip-on": 20, "norm-rust": 20, "invalid-assignments-probed": 300}
 
 
 def gen_cases(run, n, prefix="c"):
@@ -48,6 +50,10 @@ def gen_cases(run, n, prefix="c"):
                 continue
             vecs.append({"id": "a%d" % ai, "kind": "vars", "target": op["name"], "input": asg,
                          "expect": {"variables": expected_variables(schema, op, asg, skip)}})
+        # the value space of the generated types, probed from outside: invalid assignments
+        for bi_, base_vec in enumerate([v for v in vecs if v["input"]][1:3]):
+            for xi, (label, bad) in enumerate(invalidations(schema, op, base_vec["input"], rng, limit=run.size(8, 16))):
+                vecs.append({"id": "%s.x%d" % (base_vec["id"], xi), "kind": "vars-reach", "target": op["name"], "input": bad, "label": label, "expect": {}})
         # enum values: a symmetric renaming bug is invisible through deserialise-then-serialise (the value just lands
         # in Other(s) and comes back); so each schema value must also be a proper variant that prints as itself
         for en in schema.of_kind("enum"):
@@ -72,6 +78,81 @@ def gen_cases(run, n, prefix="c"):
             feats.add("norm-rust")
         c["features"] = sorted(feats)
         out.append(c)
+    return out
+
+
+def invalidations(schema, op, asg, rng, limit=10):
+    """single-point departures from a valid assignment that make it INVALID for the schema: null / absent at a non-null
+    position, a @oneOf object with zero or two members. Fed to Deserialize for Variables: if the generated types have such
+    a value at all (a non-null member typed Option, a @oneOf input typed as a struct), it must not serialise to it."""
+    import copy
+    spots = []   # (label, function applied to a deep copy)
+
+    def walk(v, t, path, setter, deleter):
+        if t[0] == "nn":
+            spots.append(("null@" + path, lambda: setter(None)))
+            if deleter is not None:
+                spots.append(("absent@" + path, deleter))
+            return walk(v, t[1], path, setter, None)
+        if v is None:
+            return
+        if t[0] == "list":
+            for i, x in enumerate(v[:2]):
+                walk(x, t[1], "%s[%d]" % (path, i), (lambda nv, v=v, i=i: v.__setitem__(i, nv)), None)
+            return
+        if schema.kind(t[1]) != "input":
+            return
+        td = schema.types[t[1]]
+        fm = dict((f, ft) for f, ft in td["fields"])
+        if td.get("one_of"):
+            spots.append(("oneof-empty@" + path, lambda v=v: v.clear()))
+            others = [f for f in fm if f not in v]
+            if others:
+                # a second member, with the cheapest valid value for its type
+                f2 = others[0]
+                spots.append(("oneof-two@" + path, lambda v=v, f2=f2: v.__setitem__(f2, cheap(fm[f2]))))
+            for k in list(v):
+                spots.append(("oneof-null-member@" + path, lambda v=v, k=k: v.__setitem__(k, None)))
+        for k, x in list(v.items()):
+            if k in fm:
+                walk(x, fm[k], path + "." + k, (lambda nv, v=v, k=k: v.__setitem__(k, nv)), (lambda v=v, k=k: v.pop(k, None)))
+        for f, ft in td["fields"]:
+            if f not in v and is_nn(ft):
+                pass
+
+    def cheap(t):
+        while t[0] == "nn":
+            t = t[1]
+        if t[0] == "list":
+            return []
+        k = schema.kind(t[1])
+        if k == "enum":
+            return schema.types[t[1]]["values"][0]
+        if k == "input":
+            return {}
+        return {"Int": 1, "Float": 1.5, "Boolean": True}.get(t[1], "s")
+    out = []
+    # positions are discovered on one copy, each edit is applied to a fresh copy (paths are re-walked by index)
+    probe = copy.deepcopy(asg)
+    for var in op["vars"]:
+        if var["name"] in probe:
+            walk(probe[var["name"]], var["type"], "$" + var["name"], (lambda nv, n=var["name"]: probe.__setitem__(n, nv)),
+                 (lambda n=var["name"]: probe.pop(n, None)))
+    n_spots = len(spots)
+    idxs = list(range(n_spots))
+    rng.shuffle(idxs)
+    for idx in idxs[:limit]:
+        spots.clear()
+        probe = copy.deepcopy(asg)
+        for var in op["vars"]:
+            if var["name"] in probe:
+                walk(probe[var["name"]], var["type"], "$" + var["name"], (lambda nv, n=var["name"], probe=probe: probe.__setitem__(n, nv)),
+                     (lambda n=var["name"], probe=probe: probe.pop(n, None)))
+        if idx >= len(spots):
+            continue
+        label, fn = spots[idx]
+        fn()
+        out.append((label, probe))
     return out
 
 
@@ -102,6 +183,29 @@ def judge(c, vec, o):
             return "enum value %r does not round-trip: %s" % (vec["input"], json.dumps(o)[:120])
         if str(o.get("debug", "")).startswith("Other("):
             return "schema enum value %r is not a variant of the generated enum (lands in %s): constructing it from Rust cannot give the schema's name" % (vec["input"], o.get("debug"))
+        return None
+    if vec["kind"] == "vars-reach":
+        # an assignment that is invalid for the schema: the generated types should have no such value (deserialisation
+        # fails); if they do, that value must still serialise to something valid - it is a value of `Variables`
+        if o is None or "no_such_probe" in o:
+            return "no-observation"
+        if not o.get("ok"):
+            return None
+        schema = Schema(c["schema_model"])
+        op = c["doc_model"]["operations"][0]
+        vs = (o.get("body") or {}).get("variables")
+        if not isinstance(vs, dict):
+            return "variables-not-an-object: %s" % json.dumps(vs)[:60]
+        declared = {v["name"]: v["type"] for v in op["vars"]}
+        for k, x in vs.items():
+            if k not in declared:
+                return "undeclared-key: %s" % k
+            r = valid_input(schema, x, declared[k], "$" + k)
+            if r:
+                return "a Variables value exists (reached through %s) that serialises invalidly: %s" % (vec.get("label"), r)
+        for k, t in declared.items():
+            if is_nn(t) and k not in vs:
+                return "a Variables value exists (reached through %s) that omits the required variable %s" % (vec.get("label"), k)
         return None
     if not c.get("schema_model") or not c.get("doc_model"):
         # committed witness without a model: judged against its stored expectation only
@@ -176,6 +280,9 @@ def execute(run, cases, tag="b0"):
             run.evaluated()
             if vec["kind"] == "enum":
                 run.count("enum-values-checked")
+            elif vec["kind"] == "vars-reach":
+                run.count("invalid-assignments-probed")
+                run.count("invalid:" + vec["label"].split("@")[0])
             else:
                 run.count("assignments")
             for var in (op["vars"] if vec["kind"] == "vars" else []):
